@@ -18,14 +18,19 @@ from ..impl import wsgi
 
 BOM_CODECS = ('utf-16', 'utf-32', 'utf-8-sig', 'utf_16', 'utf_32', 'utf16', 'utf32')
 
-QTEXTS = {0: ['0', '0.0', '0.000', '0.'], 1000: ['1', '1.0', '1.000', '1.'], 500: ['0.5', '.5', '0.50', '0.500'],
+# the model compares weights only (q > 0, order), so any fixed-point scale is exact: millionths cover the
+# three-decimal RFC 7231 grammar and the longer fractions float() - which is what the code calls - also accepts
+Q1 = 1000000
+QTEXTS = {0: ['0', '0.0', '0.000', '0.', '0.0000'], 1000: ['1', '1.0', '1.000', '1.'], 500: ['0.5', '.5', '0.50', '0.500'],
+          '4e-4': ['0.0004'], '1e-4': ['0.0001', '.00010'], '1e-6': ['0.000001'], '9999e-4': ['0.9999'],
           1: ['0.001'], 999: ['0.999'], 800: ['0.8', '0.80'], 300: ['0.3'], 100: ['0.1', '0.10']}
 
 
 def qtext_to_int(t):
-    """'0.50' -> 500 (thousandths); exact for texts with <= 3 decimals"""
+    """'0.50' -> 500000 (millionths); exact for texts with <= 6 decimals"""
     a, _, b = t.partition('.')
-    return int(a or '0') * 1000 + int((b + '000')[:3] or '0')
+    assert len(b) <= 6, t
+    return int(a or '0') * Q1 + int((b + '000000')[:6] or '0')
 
 
 def render_elem(e):
@@ -50,16 +55,16 @@ def model_elems(elems):
     hdr = render_header(elems).strip()
     if not hdr:
         return [[]]
-    return [[[e['v'], 1000 if e.get('q') is None else qtext_to_int(e['q']), render_elem(e)[1]] for e in elems]]
+    return [[[e['v'], Q1 if e.get('q') is None else qtext_to_int(e['q']), render_elem(e)[1]] for e in elems]]
 
 
 def eff_q(name, elems, default=None):
-    """RFC 7231 effective qvalue (thousandths) of a lower-case name: the best explicit entry, else the best
+    """RFC 7231 effective qvalue (millionths) of a lower-case name: the best explicit entry, else the best
     wildcard, else [default]"""
-    qs = [1000 if e.get('q') is None else qtext_to_int(e['q']) for e in elems if e['v'].lower() == name]
+    qs = [Q1 if e.get('q') is None else qtext_to_int(e['q']) for e in elems if e['v'].lower() == name]
     if qs:
         return max(qs)
-    qs = [1000 if e.get('q') is None else qtext_to_int(e['q']) for e in elems if e['v'] == '*']
+    qs = [Q1 if e.get('q') is None else qtext_to_int(e['q']) for e in elems if e['v'] == '*']
     if qs:
         return max(qs)
     return default
@@ -141,7 +146,8 @@ class C17(core.Check):
         'zlib (raw deflate/inflate) and the codecs are not modelled: inflate(deflate stream ++ rest) = (data, rest) '
         'is a hypothesis of c17_gzip_valid (shown satisfiable by the stored-block codec); charset encodability is '
         'an oracle function of the model, supplied per case by CPython',
-        'q-values are decimal texts with at most three digits in 0..1 (the model keeps them in thousandths); '
+        'q-values are decimal texts with at most six digits in 0..1, among them weights below 0.001 such as 0.0004 '
+        '(the model keeps them in millionths and only compares them); '
         'malformed q-values (answered 500 by this tree - a C07 matter) are outside this check',
         'a mime_types entry or Content-Type with two "/" or two "+" makes the tool raise ValueError (500); the '
         'model reproduces it, the oracle does not judge it (server-side configuration, not client input)',
@@ -187,7 +193,7 @@ class C17(core.Check):
             if rng.random() < .4:
                 q = None
             else:
-                q = rng.choice(QTEXTS[rng.choice([0, 0, 0, 1000, 500, 500, 1, 999, 800, 300, 100])])
+                q = rng.choice(QTEXTS[rng.choice([0, 0, 0, 1000, 500, 500, 1, 999, 800, 300, 100, '4e-4', '1e-4', '1e-6', '9999e-4'])])
             e = {'v': v, 'q': q, 'ws': rng.choice([0, 0, 0, 1, 2, 3] if q is not None else [0, 0, 0, 1, 2])}
             if q is not None and rng.random() < .08:
                 e['ext'] = rng.choice([';ext=1', ';x=y'])
@@ -573,10 +579,10 @@ class C17(core.Check):
         mimes = c['mime_types'] if c['mime_types'] is not None else ['text/html', 'text/plain']
         cfgerr = any(s.count('/') > 1 or s.count('+') > 1 for s in list(mimes) + [c['ct'] or ''])
         def coding_q(names):
-            ex = [1000 if e.get('q') is None else qtext_to_int(e['q']) for e in elems if e['v'] in names]
+            ex = [Q1 if e.get('q') is None else qtext_to_int(e['q']) for e in elems if e['v'] in names]
             if ex:
                 return max(ex)
-            stars = [1000 if e.get('q') is None else qtext_to_int(e['q']) for e in elems if e['v'] == '*']
+            stars = [Q1 if e.get('q') is None else qtext_to_int(e['q']) for e in elems if e['v'] == '*']
             return max(stars) if stars else None
         gz_q = coding_q(('gzip', 'x-gzip')) or 0          # a coding that is not listed is not acceptable
         id_q = coding_q(('identity',))                    # None: not mentioned, acceptable by default
@@ -636,13 +642,13 @@ class C17(core.Check):
 
         def q_of(nm):
             nm = nm.lower()
-            return eff_q(nm, elems, 1000 if nm == 'iso-8859-1' else 0)
+            return eff_q(nm, elems, Q1 if nm == 'iso-8859-1' else 0)
 
         # the charsets the tool may answer with, each with the client's qvalue for it
         if c['forced'] is not None:
-            cands = [(c['forced'], q_of(c['forced']) if present else 1000)]
+            cands = [(c['forced'], q_of(c['forced']) if present else Q1)]
         elif not present:
-            cands = [(default, 1000)]
+            cands = [(default, Q1)]
         else:
             cands = [(e['v'], q_of(e['v'])) for e in elems if e['v'] != '*']
             if any(e['v'] == '*' for e in elems):
